@@ -688,7 +688,7 @@ int main(int argc, char** argv) {
         std::ifstream rf(regress_file.c_str()); std::string line;
         while (std::getline(rf, line)) { VpCase c; if (!line.empty() && line[0] != '#' && case_from_text(line, c)) account(c); }
     }
-    if (mode == "all" || mode == "enum") {
+    if (mode == "all" || mode == "enum" || mode == "enumrc") {
         g_phase = "enum";
         vp_enum(tier, seed, shard, nshards, emit_cb, nullptr);
     }
@@ -700,7 +700,7 @@ int main(int argc, char** argv) {
         std::istringstream is(dom); std::string d;
         while (std::getline(is, d, ';')) if (!d.empty()) g_domains.push_back(d);
     }
-    if (mode == "all" || mode == "rc") {
+    if (mode == "all" || mode == "rc" || mode == "enumrc") {
         g_phase = "rapidcheck";
         run_rc(scale);
     }
